@@ -26,7 +26,7 @@ func C01(c *Ctx) {
 		"NOT decided: correctness of tbls.Recover/tbls.Sign, equality of all t-subsets' interpolation (BLS uniqueness), validity under an independent Ethereum verifier, the (n,t)/subset/order quantifier."
 	r.Trusted = []string{"corestario/kyber sign/tbls (Sign, Recover), share.PubPoly", "go/ssa value provenance"}
 	r.Rule("C01/R1", "reconstruction call site: callee and the five arguments of tbls.Recover", 10)
-	r.Rule("C01/R2", "signing call site: tbls.Sign with the round's share over the expanded payload; id of the signed message attached", 5)
+	r.Rule("C01/R2", "signing call site: tbls.Sign with the round's share over the expanded payload; id of the signed message attached", 4)
 	r.Rule("C01/R3", "what is broadcast/stored is what was reconstructed", 3)
 	r.Rule("C01/R4", "one threshold: key generation, batch release and interpolation use the proposal's threshold unmodified", 5)
 	node := [3]string{pkgNode, "", "recoverFullSign"}
@@ -46,12 +46,11 @@ func C01(c *Ctx) {
 		{"C01/R1", "node.reconstructThresholdSignature:expansion", rts, "fsm/types/requests.TasksToMessages", 0, `^json\(payload\.SrcPayload\)$`, "messages come from the single expansion of the proposal's tasks", "ad-hoc expansion"},
 		{"C01/R1", "node.reconstructThresholdSignature:tasks-source", rts, "encoding/json.Unmarshal", 0, `^payload\.SrcPayload$`, "the tasks are the proposal's SrcPayload carried by the FSM response", "tasks taken from elsewhere"},
 		{"C01/R1", "node.reconstructThresholdSignature:share-grouping", rts, "fsm/types.(BatchPartialSignatures).AddPartialSignature", 1, `^next\(range\(payload\.Participants\[i\]\.PartialSigns\)\)#1$`, "shares are grouped by the message id they were submitted under", "grouping key changed"},
-		{"C01/R2", "airgapped.createPartialSign:Sign:share", [3]string{"airgapped", "Machine", "createPartialSign"}, "github.com/corestario/kyber/sign/tbls.Sign", 1, `^am\.loadBLSKeyring\(dkgIdentifier\)#0\.Share$`,
-			"the signing key is the share stored for that round", "share of another round / another key"},
-		{"C01/R2", "airgapped.createPartialSign:Sign:msg", [3]string{"airgapped", "Machine", "createPartialSign"}, "github.com/corestario/kyber/sign/tbls.Sign", 2, `^msg$`, "the bytes signed are the caller's payload", "payload substituted"},
-		{"C01/R2", "airgapped.signing-handler:sign:payload", [3]string{"airgapped", "Machine", "handleStateSigningAwaitPartialSigns"}, "airgapped.(Machine).createPartialSign", 1, `^requests\.TasksToMessages\(json\(json\(o\.Payload\)\.SrcPayload\)\)#0\[i\]\.Payload$`,
+		// (createPartialSign is expanded into the handler — load.flatten — so these hold whether the wrapper exists or not)
+		{"C01/R2", "airgapped.signing-handler:Sign:share", [3]string{"airgapped", "Machine", "handleStateSigningAwaitPartialSigns"}, "github.com/corestario/kyber/sign/tbls.Sign", 1, `^am\.loadBLSKeyring\(o\.DKGIdentifier\)#0\.Share$`,
+			"the signing key is the share stored for the operation's round", "share of another round / another key"},
+		{"C01/R2", "airgapped.signing-handler:Sign:msg", [3]string{"airgapped", "Machine", "handleStateSigningAwaitPartialSigns"}, "github.com/corestario/kyber/sign/tbls.Sign", 2, `^requests\.TasksToMessages\(json\(json\(o\.Payload\)\.SrcPayload\)\)#0\[i\]\.Payload$`,
 			"each expanded message's payload is signed", "other bytes signed (file name, task payload, ...)"},
-		{"C01/R2", "airgapped.signing-handler:sign:round", [3]string{"airgapped", "Machine", "handleStateSigningAwaitPartialSigns"}, "airgapped.(Machine).createPartialSign", 2, `^o\.DKGIdentifier$`, "the share used is the operation's round's", "round id substituted"},
 		{"C01/R3", "node.broadcastReconstructedSignatures:payload", [3]string{pkgNode, "BaseNodeService", "broadcastReconstructedSignatures"}, "encoding/json.Marshal", 0, `^sigs$`, "the broadcast carries the reconstructed signatures unmodified", "broadcast value differs from the reconstructed one"},
 		{"C01/R4", "dkg.InitDKGInstance:threshold", [3]string{"dkg", "DKG", "InitDKGInstance"}, "github.com/corestario/kyber/share/dkg/pedersen.NewDistKeyGenerator", 3, `^d\.Threshold$`,
 			"the key is generated with exactly the configured threshold", "a threshold that differs from the one the hot nodes release and interpolate batches with makes every reconstruction a non-signature"},
@@ -61,7 +60,7 @@ func C01(c *Ctx) {
 		{"C01/R1", "node.reconstructThresholdSignature:MessageID", rts, "ReconstructedSignature", "MessageID", `^next\(range\(` + mBatch + `\)\)#1$`, "the signature is filed under the id its shares were grouped by", "id mismatch"},
 		{"C01/R2", "airgapped.signing-handler:PartialSign.MessageID", [3]string{"airgapped", "Machine", "handleStateSigningAwaitPartialSigns"}, "PartialSign", "MessageID", `^requests\.TasksToMessages\(json\(json\(o\.Payload\)\.SrcPayload\)\)#0\[i\]\.MessageID$`,
 			"each partial signature is labelled with the id of the message whose payload was signed", "label taken from another element"},
-		{"C01/R2", "airgapped.signing-handler:PartialSign.Sign", [3]string{"airgapped", "Machine", "handleStateSigningAwaitPartialSigns"}, "PartialSign", "Sign", `^am\.createPartialSign\(requests\.TasksToMessages\(json\(json\(o\.Payload\)\.SrcPayload\)\)#0\[i\]\.Payload, o\.DKGIdentifier\)#0$`,
+		{"C01/R2", "airgapped.signing-handler:PartialSign.Sign", [3]string{"airgapped", "Machine", "handleStateSigningAwaitPartialSigns"}, "PartialSign", "Sign", `^tbls\.Sign\(am\.baseSuite\.\(pairing\.Suite\), am\.loadBLSKeyring\(o\.DKGIdentifier\)#0\.Share, requests\.TasksToMessages\(json\(json\(o\.Payload\)\.SrcPayload\)\)#0\[i\]\.Payload\)#0$`,
 			"the partial signature is the one computed for that element", "value mismatch"},
 		{"C01/R4", "airgapped.commits-handler:DKG.Threshold", [3]string{"airgapped", "Machine", "handleStateDkgCommitsAwaitConfirmations"}, "DKG", "Threshold", `^json\(o\.Payload\)\[0\]\.Threshold$`, "key generation uses the threshold carried by the operation (the proposal's)", "threshold rewritten on the airgapped side"},
 	})
